@@ -163,7 +163,7 @@ class WebsocketFrame:
             self.mask = raw[cur: cur + 4]
             cur += 4
 
-        assert self.payload_length
+        assert self.payload_length is not None
         self.data = raw[cur: cur + self.payload_length]
         cur += self.payload_length
         if self.masked:
